@@ -68,21 +68,45 @@ def decl_deps(schema, d):
     return deps
 
 
+def side_file_for(decls):
+    """Name of a side file to include (a third of the inputs): the file is called like one of the definitions of the
+    including file - an include is no definition, whatever its file is called."""
+    named = [d.name for d in decls if isinstance(d, (Struct, Union, ir.Typedef, ir.Enum))]
+    text = ir.to_isar(decls)
+    return named[len(text) % len(named)] if named and len(text) % 3 == 0 else None
+
+
 def run_isar(decls):
+    """-> (model nodes of the main file, its generated Python module text, its imported namespace or the exception)"""
     work = pyh.fresh_dir('c15')
     try:
-        with open(os.path.join(work, 'm.xml'), 'w') as f:
-            f.write(ir.to_isar(decls))
+        side = side_file_for(decls)
+        inputs = [os.path.join(work, 'm.xml')]
+        with open(inputs[0], 'w') as f:
+            f.write(ir.to_isar(decls, [side + '.xml'] if side else ()))
+        if side:
+            inputs.append(os.path.join(work, side + '.xml'))
+            with open(inputs[1], 'w') as f:
+                f.write(ir.to_isar([ir.Const('ZZ_SIDE_%s' % side, 1, '1')]))
         old = signal.signal(signal.SIGALRM, _alarm)
-        signal.setitimer(signal.ITIMER_REAL, WATCHDOG_S)
+        signal.setitimer(signal.ITIMER_REAL, WATCHDOG_S, 1.0)
         try:
-            nodes = pyh.run_prophyc(['--isar', os.path.join(work, 'm.xml'), '--python_out', work])['m']
+            nodes = pyh.run_prophyc(['--isar'] + inputs + ['--python_out', work])['m']
         finally:
             signal.setitimer(signal.ITIMER_REAL, 0)
             signal.signal(signal.SIGALRM, old)
         with open(os.path.join(work, 'm.py')) as f:
             py = f.read()
-        return nodes, py
+        try:
+            if side:
+                from vlib import multifile
+                ns = multifile.import_package(work)['m']
+            else:
+                ns = pyh.load_module_text(py)
+        except Exception as ex:
+            ns = ex
+        from prophyc import model
+        return [n for n in nodes if not isinstance(n, model.Include)], py, ns
     finally:
         shutil.rmtree(work, ignore_errors=True)
 
@@ -92,9 +116,9 @@ def check_perm(schema, order, rw=None, deps=None):
     rw = rw or RefWire(schema)
     deps = deps or {d.name: decl_deps(schema, d) for d in schema.decls}
     decls = [schema.by_name[n] for n in order]
-    det = {'xml': ir.to_isar(decls), 'order': list(order)}
+    det = {'xml': ir.to_isar(decls), 'order': list(order), 'included_side_file': side_file_for(decls)}
     try:
-        nodes, py = run_isar(decls)
+        nodes, py, ns = run_isar(decls)
     except _Timeout:
         return ("prophyc did not terminate within %d s" % WATCHDOG_S, det)
     except pyh.CompileFailed as ex:
@@ -110,10 +134,8 @@ def check_perm(schema, order, rw=None, deps=None):
         for dep in deps[n]:
             if pos[dep] > pos[n]:
                 return ("%s is emitted before %s, which it depends on" % (n, dep), det)
-    try:
-        ns = pyh.load_module_text(py)
-    except Exception as ex:
-        return ("generated Python module does not import: %s: %s" % (type(ex).__name__, str(ex)[:200]), det)
+    if isinstance(ns, Exception):
+        return ("generated Python module does not import: %s: %s" % (type(ns).__name__, str(ns)[:200]), det)
     for node in nodes:
         d = schema.by_name[node.name]
         if isinstance(d, (Struct, Union)):
